@@ -5,7 +5,7 @@ P=${2:-$(python3 -c "import json;print(json.load(open('$SD/meta.json'))['propert
 S=/var/tmp/vx-seed-$$
 rm -rf $S; mkdir -p $S; rsync -a --exclude target --exclude .git /repo/ $S/
 (cd $S && git init -q . 2>/dev/null; git apply $SD/patch.diff) || { echo "patch does not apply"; rm -rf $S; exit 3; }
-cd /verif && ./check $P --repo $S | sed "s#$S#<scratch>#g" | cut -c1-260
+cd "$(dirname "$0")/.." && ./check $P --repo $S | sed "s#$S#<scratch>#g" | cut -c1-260
 rc=${PIPESTATUS[0]}
 rm -rf $S
 exit $rc
